@@ -128,7 +128,20 @@ def polish(p) -> str:
     return " ".join(out)
 
 
-def run_impl(s: str):
+def _spoil_tree(q, m):
+    """The caller owns what parse_expression returned: rename its variables and flip their values in place."""
+    t = type(q)
+    if t in (m["AndPredicate"], m["OrPredicate"], m["XorPredicate"]):
+        _spoil_tree(q.left, m)
+        _spoil_tree(q.right, m)
+    elif t is m["NotPredicate"]:
+        _spoil_tree(q.predicate, m)
+    elif t is m["NamedPredicate"]:
+        q.name = q.name + "_renamed"
+        q.v = True
+
+
+def run_impl(s: str, spoil=False):
     """-> ('tree', polish) | ('none',) | ('parse-error', Type) | ('raised', Type, msg) | ('alien', msg)"""
     m = _load_impl()
     try:
@@ -144,9 +157,15 @@ def run_impl(s: str):
     if not isinstance(r, m["Predicate"]):
         return ("alien", f"returned {type(r).__name__}")
     try:
-        return ("tree", polish(r))
+        out = ("tree", polish(r))
     except _Alien as e:
         return ("alien", str(e))
+    if spoil:
+        try:
+            _spoil_tree(r, m)
+        except Exception:  # noqa: BLE001
+            pass
+    return out
 
 
 def _work(chunk):
@@ -643,7 +662,10 @@ def main(tier):
                 chk.add_failure({"text": s, "codepoints": enc_text(s)}, {"what": "the fully parenthesised text of a tree is read as a different tree", "tree": tree_text(t), "returned": tree_text(r[1])})
     # history: order-sensitive texts, one process, sequentially (after the forked workers, so nothing above depends on it)
     hist = gen_history(tier, chk.seed)
-    impl_h = _work(hist)
+    impl_h = []
+    for k, s_ in enumerate(hist):
+        r_ = run_impl(s_, spoil=(k % 3 == 0))  # every third returned tree is changed by its owner afterwards (names, values)
+        impl_h.append(r_)
     ans_h = driver.run([f"case\t{enc_text(s)}\t{r[1] if r[0] == 'tree' else '-'}" for s, r in zip(hist, impl_h)], **EXE)
     for i, (s, r, a) in enumerate(zip(hist, impl_h, ans_h)):
         nf = len(chk.failures)
@@ -704,7 +726,7 @@ def replay(path):
         return 1
     text = dec_text(d["input"]["codepoints"])
     for prev in d["input"].get("after", []):
-        run_impl(prev)
+        run_impl(prev, spoil=True)  # (the history stream lets the caller change every third returned tree; here: every one)
     r = run_impl(text)
     a = driver.run([f"case\t{enc_text(text)}\t{r[1] if r[0] == 'tree' else '-'}"], **EXE)[0]
     print("text           :", repr(text))
